@@ -202,6 +202,10 @@ func (c *Conn) syncWithLiteFS() {
 	if sz, err := c.walf.Size(); err == nil && sz == 0 {
 		w.MxFrame, w.NBackfill, w.Frames, w.Phys = 0, 0, nil, 0
 		w.ReadMark = [5]uint32{0, notUsed, notUsed, notUsed, notUsed}
+		// (the connection recovers its index from an empty file: no header, so the next
+		// writer draws fresh random salts - sqlite3WalFrames with nCkpt == 0 - and never
+		// repeats the salts of the log LiteFS emptied)
+		w.Salt1, w.Salt2, w.Seq = 0, 0, 0
 	}
 }
 
